@@ -16,6 +16,8 @@
 (*   <<"put", k, v, mode, ref>>      mode: create | overwrite | update     *)
 (*   <<"get" | "head", k, cond, ref>>                                      *)
 (*   <<"delete", k>>   <<"copy" | "rename", a, b, mode>>                   *)
+(*   <<"mput", k, v>>   a completed multipart upload: an overwrite commit  *)
+(*   <<"mabort", k>>    an aborted multipart upload: nothing happened      *)
 (* A token reference ref is resolved against the state BEFORE the call:    *)
 (*   Cur = current token of the key, Stale = a replaced token of the key,  *)
 (*   Other = current token of another key, Bogus = never issued.           *)
@@ -79,6 +81,8 @@ Do(s, c) ==
     [] c[1] = "delete" ->
          \* the reference store reports nothing for a missing key ("absent")
          [s |-> Remove(s, c[2]), res |-> R(IF Exists(s, c[2]) THEN "ok" ELSE "absent", 0, 0)]
+    [] c[1] = "mput"   -> [s |-> Commit(s, c[2], c[3]), res |-> R("ok", 0, s.nextTok)]
+    [] c[1] = "mabort" -> [s |-> s, res |-> R("ok", 0, 0)]
     [] c[1] = "copy" ->
          LET cl == CopyClass(s, c[2], c[3], c[4]) IN
          IF cl = "ok" THEN [s |-> Commit(s, c[3], s.obj[c[2]].val), res |-> R("ok", 0, s.nextTok)]
